@@ -4,6 +4,9 @@ CFG = {
         'bmtree.IndexToPath/fields': 'bmtree.IndexToPath, then PathLen/PathHeight/PathBits/PathMask/PathStr on its result',
         'bmtree.IndexToPath/order': 'bmtree.IndexToPath on two indices of one height, numeric comparison of the results',
         'bmtree.AllPaths/full': 'bmtree.AllPaths(2^(h+1)-1, 0, 1<<63) and [bmtree.IndexToPath(h, i)] for every index',
+        'bmtree.AllPaths/scribble': 'bmtree.AllPaths(2^(hs+1)-1, 0, 1<<63), the caller overwrites the returned slice, then bmtree.IndexToPath(h, i) for every index',
+        'bmtree.IndexToPath/session': 'consecutive bmtree.IndexToPath calls on one height',
+        'bmtree.PathToIndex/then-IndexToPath': 'bmtree.PathToIndexLoose / PathToIndex on any level mask, then bmtree.IndexToPath at the returned positions and their neighbours',
         'bmtree.Height/full': 'bmtree.Height(2^(h+1)-1)',
         'bmtree.PathToIndexLoose/full': 'bmtree.PathToIndexLoose(2^(h+1)-1, NewPath(node)), then bmtree.IndexToPath on its result',
         'bmtree.PathToIndex/inverse': 'bmtree.PathToIndex(2^(h+1)-1, NewPath(node)), then bmtree.IndexToPath on its result'},
@@ -16,6 +19,10 @@ CFG = {
          'Widened ops on the same inputs: the five accessors on the result (every index of heights 0..8, a third of the boundary and a '
          'quarter of the random cases), the order of two results (every ordered pair of heights 0..4; previous/same/next index otherwise), '
          'PathToIndexLoose on the full tree for every node the inverse direction uses. '
+         'History ops (generated first): the AllPaths listing of the full bitmap of height 0..8 overwritten in place by the caller, then '
+         'IndexToPath listed for every index of heights 0..7; sessions of consecutive IndexToPath calls whose indices differ by multiples of '
+         '2^k (k = 20..30, heights 21..30, both orders) and i j i j sessions; PathToIndexLoose/PathToIndex on every level mask in [1,2^7) x '
+         'every node and on random full / leaf-only / partial masks of heights 5..30, then IndexToPath at pos-1, pos, pos+1. '
          'A case is non-trivial when the node is not the root; shape key = (height bucket, shortcut not applicable/not taken/levels fixed, '
          'levels walked by the loop, loop exit: index 0 or table with 1..3 levels, all-left/all-right/mixed path); distinct = distinct (op,args)',
  'assumptions': ['0 <= treeheight <= 30 (bitmapSize 2^(h+1)-1 is an int32)', '0 <= index < 2^(treeheight+1)-1',
